@@ -67,6 +67,7 @@ fn main() {
                 "flush" => dbops.push(api::DbOp::Flush),
                 "compact" => dbops.push(api::DbOp::CompactAll),
                 "snapshot" => dbops.push(api::DbOp::Snapshot),
+                "pin" => dbops.push(api::DbOp::PinIterator(t.get(2).map(|x| *x == "positioned").unwrap_or(false))),
                 // batch k1 v1 k2 ! ...   ('!' as value = delete)
                 "batch" => dbops.push(api::DbOp::Batch(t[2..].chunks(2).map(|c| (unhex(c[0]), if c[1] == "!" { None } else { Some(unhex(c[1])) })).collect())),
                 "reopen" => dbops.push(api::DbOp::Reopen(t[2] == "reuse")),
@@ -154,6 +155,7 @@ fn main() {
             type M = std::collections::BTreeMap<Vec<u8>, Option<Vec<u8>>>;
             let mut model: M = Default::default();
             let mut frozen: Vec<(usize, M)> = vec![];
+            let mut frozen_pins: Vec<(usize, M)> = vec![];
             let mut allkeys: std::collections::BTreeSet<Vec<u8>> = Default::default();
             for (i, op) in dbops.iter().enumerate() {
                 match op {
@@ -161,7 +163,8 @@ fn main() {
                     api::DbOp::Delete(k) => { model.insert(k.clone(), None); allkeys.insert(k.clone()); }
                     api::DbOp::Batch(ops) => { for (k, v) in ops { model.insert(k.clone(), v.clone()); allkeys.insert(k.clone()); } }
                     api::DbOp::Snapshot => frozen.push((i, model.clone())),
-                    api::DbOp::Reopen(_) => frozen.clear(),
+                    api::DbOp::PinIterator(_) => frozen_pins.push((i, model.clone())),
+                    api::DbOp::Reopen(_) => { frozen.clear(); frozen_pins.clear(); }
                     _ => {}
                 }
             }
@@ -169,8 +172,17 @@ fn main() {
             let mut keys: Vec<Vec<u8>> = vec![];
             for k in &allkeys { keys.push(k.clone()); let mut k2 = k.clone(); k2.push(0); keys.push(k2); }
             keys.push(vec![]);
-            let views = api::run_views(&dbops, &keys, &moves);
+            let (views, pins) = api::run_views_and_pins(&dbops, &keys, &moves);
             let mut bad = vec![];
+            // iterators created in the middle of the history and read at the end: the state at creation
+            for pscan in &pins {
+                let m = &frozen_pins.iter().find(|(j, _)| *j == pscan.taken_at).unwrap().1;
+                let vis: Vec<(Vec<u8>, Vec<u8>)> = m.iter().filter_map(|(k, v)| v.as_ref().map(|v| (k.clone(), v.clone()))).collect();
+                let show = |l: &Vec<(Vec<u8>, Vec<u8>)>| l.iter().map(|(k, v)| format!("{}={}", hex(k), hex(v))).collect::<Vec<_>>().join(",");
+                if pscan.forward != vis { bad.push(format!("iterator@op{}: forward scan [{}] expected [{}]", pscan.taken_at, show(&pscan.forward), show(&vis))); }
+                let mut rev = vis.clone(); rev.reverse();
+                if pscan.backward != rev { bad.push(format!("iterator@op{}: backward scan [{}] expected [{}]", pscan.taken_at, show(&pscan.backward), show(&rev))); }
+            }
             for v in &views {
                 let m: &M = match v.taken_at { Some(i) => &frozen.iter().find(|(j, _)| *j == i).unwrap().1, None => &model };
                 let name = match v.taken_at { Some(i) => format!("snapshot@op{}", i), None => "latest".to_string() };
